@@ -148,10 +148,8 @@ Proof.
     rewrite W1. eexists. split; [reflexivity|]. unfold P.
     replace (a + lenN (sort_pairs temp)) with b in * by lia.
     split; [lia|]. split; [lia|]. split.
-    + intros k Hk. assert (a <= nthN p 0 0 \/ True) by auto.
-      pose proof (Hmono i 0 ltac:(lia) ltac:(lia)).
-      destruct (W5 k) as (E1 & E2); [fold a in H0; lia|]. rewrite E1, E2. apply Hsame.
-      fold a in H0. lia.
+    + intros k Hk. pose proof (Hmono i 0 ltac:(lia) ltac:(lia)) as H0. fold a in H0.
+      destruct (W5 k) as (E1 & E2); [lia|]. rewrite E1, E2. apply Hsame. lia.
     + intros r Hr. destruct (N.eq_dec r i) as [->|Hne].
       * fold a b. rewrite W4. split; [apply sort_pairs_perm|apply sort_pairs_srt].
       * destruct (Hdone r ltac:(lia)) as (D1 & D2).
